@@ -279,6 +279,22 @@ Verdict run(const Json::Value& sc) {
     return v;
   }
   val.obs = inv->attempts;
+  // the victim is killed as a unit: every process listed in its subtree at the start of the tick is
+  // signalled by an attempt that signalled anything (user-space kills; cgroup.kill is the kernel's job)
+  if (args.get("kernelkill", "false").asString() != "true") {
+    for (auto& a : inv->attempts) {
+      if (a.sig_ok == 0) continue;
+      std::set<int> called;
+      for (auto* e : a.evs)
+        if (e->k == "kill") called.insert((int)e->a);
+      for (int pid : w.subtreePids(a.victim))
+        if (!called.count(pid)) {
+          v.fail("process " + std::to_string(pid) + " of the subtree of victim '" + a.victim + "' was never signalled although the victim was killed (the subtree is killed as a unit)");
+          return v;
+        }
+      if (vpm::splitPath(a.victim).size() + 2 <= 4 && !w.children(a.victim).empty()) v.labels.push_back("non_leaf_victim");
+    }
+  }
   auto targets = vpm::resolveArg(w, args["cgroup"].asString());
   std::vector<std::string> init(targets.begin(), targets.end());
   // root as a ranked sibling: its statistics come from host files the model of
